@@ -148,7 +148,8 @@ def eval_doc(args):
                 for y in x[1:]: walk(y)
         walk(m)
         x = rng.choice(lists)
-        if rng.random() < .7: x.insert(rng.randrange(1, len(x) + 1), rng.choice(['txt', ' t ', '0']))
+        first = 2 if len(x) > 1 and isinstance(x[1], dict) else 1          # well-formed JsonML: the attribute dict stays in second position
+        if rng.random() < .7: x.insert(rng.randrange(first, len(x) + 1), rng.choice(['txt', ' t ', '0']))
         elif len(x) > 1 and isinstance(x[1], dict) and 'ver' in x[1]: x[1]['ver'] = rng.choice([3, '2x', 2.5])
         try: e = s.encode(m, converter=xmlschema.JsonMLConverter)
         except xmlschema.XMLSchemaException: continue
@@ -166,7 +167,7 @@ def run(tier, seed, open_findings):
     rng = random.Random(seed); n = 4000 if tier == 'thorough' else 80
     docs = [gen(rng) for _ in range(n)]
     # a namespace declaration on a CHILD of the root (data level 1): variants of the first generated documents
-    L1 = [d.replace('<t:item ', '<t:item xmlns="urn:t" ', 1) for d in docs[:6] if '<u>plain</u>' in d][:3]
+    L1 = [d.replace('<t:item ', '<t:item xmlns="urn:t" ', 1) for d in docs[:40] if '<u>plain</u>' in d.split('</t:item>', 1)[1] and '<u>plain</u>' not in d.split('</t:item>', 1)[0]][:3]
     docs = docs + L1
     jobs = [(ver, d, seed * 1000 + i) for i, d in enumerate(docs) for ver in ('1.0', '1.1')]
     res = pmap(eval_doc, jobs)
